@@ -168,3 +168,98 @@ Proof.
   eexists. eexists. split; [vm_compute; reflexivity|]. split; [vm_compute; reflexivity|].
   split; vm_compute; reflexivity.
 Qed.
+
+(* ---- the tie to the source, re-checked by the kernel on every run -------------------------------------
+   Gen/MappersSrc.v is re-generated from typedpy/serialization/mappers.py (harness/genmods/py2v_mappers.py):
+   _convert_to_camelcase, the mappers enum, _apply_mapper, add_mapper_to_aggregation, _set_base_mapper_no_op,
+   aggregate_serialization_mappers, aggregate_deserialization_mappers, get_flat_resolved_mapper (the memo table
+   aggregated_mapper_by_class is treated as transparent).  For EVERY well-formed class description (ASCII
+   names, unique keys) what the source computes NOW is what the hand-written model Ser/Mappers.v computes. *)
+From TP Require Import Base.PyOps Base.PyOps2 Base.PyObj Base.PyOpsMappers Gen.MappersSrc Ser.MappersSrcProofs.
+
+Theorem C07_src_camelcase :
+  forall (h : heap) (s : pystr),
+         ascii_str s = true -> Src_convert_to_camelcase h (PStr s) = Ok (PStr (camel s)).
+Proof. exact src_convert_to_camelcase. Qed.
+
+Theorem C07_src_apply_mapper :
+  forall (h : heap) (latest : mapper) (prev : list (pystr * mval)) (k s : pystr) (fs : bool),
+         mapper_wf latest = true ->
+         ascii_str s = true ->
+         alist_get prev k = Some (Key s) ->
+         Src_apply_mapper h (enc_mapper latest) (PStr k) (enc_amap prev) (PBool fs) (PBool false) =
+         Ok (enc_mval (apply_key latest s)).
+Proof. exact src_apply_mapper. Qed.
+
+Theorem C07_src_apply_mapper_self :
+  forall (h : heap) (latest : mapper) (prev : amap) (f : pystr) (fs : bool),
+         mapper_wf latest = true ->
+         ascii_str f = true ->
+         Src_apply_mapper h (enc_mapper latest) (PStr f) (enc_amap prev) (PBool fs) (PBool true) =
+         Ok (enc_mval (apply_key latest f)).
+Proof. exact src_apply_mapper_self. Qed.
+
+(* full result equality, exceptions included *)
+Theorem C07_src_add_mapper_to_aggregation :
+  forall (h : heap) (fs : bool) (latest : mapper) (prev : amap),
+         mapper_wf latest = true ->
+         amap_wf prev = true ->
+         Src_add_mapper_to_aggregation h (enc_mapper latest) (enc_amap prev) (PBool fs) =
+         enc_res (add_agg fs latest prev).
+Proof. exact src_add_mapper_to_aggregation. Qed.
+
+Theorem C07_src_set_base_mapper_no_op :
+  forall plain : pystr -> pyval,
+         plain_ok plain ->
+         forall (h : heap) (fs : bool) (c : classdef),
+         class_wf c = true ->
+         Src_set_base_mapper_no_op h (enc_class plain c) (PBool fs) = enc_res (base_noop fs c).
+Proof. exact src_set_base_mapper_no_op. Qed.
+
+Theorem C07_src_aggregate_serialization :
+  forall plain : pystr -> pyval,
+         plain_ok plain ->
+         forall (h : heap) (c : classdef) (override : option amap) (camel : bool),
+         class_wf c = true ->
+         override_wf override = true ->
+         Src_aggregate_serialization_mappers h (enc_class plain c) (enc_override override)
+           (PBool camel) = enc_res (aggregate true c override camel).
+Proof. exact src_aggregate_serialization_mappers. Qed.
+
+Theorem C07_src_aggregate_deserialization :
+  forall plain : pystr -> pyval,
+         plain_ok plain ->
+         forall (h : heap) (c : classdef) (override : option amap) (camel : bool),
+         class_wf c = true ->
+         override_wf override = true ->
+         Src_aggregate_deserialization_mappers h (enc_class plain c) (enc_override override)
+           (PBool camel) = enc_res (aggregate false c override camel).
+Proof. exact src_aggregate_deserialization_mappers. Qed.
+
+Theorem C07_src_aggregate_class_list :
+  forall plain : pystr -> pyval,
+         plain_ok plain ->
+         forall (h : heap) (fs : bool) (c : classdef),
+         class_wf c = true ->
+         (if fs
+          then Src_aggregate_serialization_mappers h (enc_class plain c) PNone (PBool false)
+          else Src_aggregate_deserialization_mappers h (enc_class plain c) PNone (PBool false)) =
+         enc_res (agg_list fs c None).
+Proof. exact src_aggregate_class_list. Qed.
+
+Theorem C07_src_flat_resolved_mapper :
+  forall (h : heap) (sm dm : option mapper) (fields : list pystr) (fobj : pystr -> pyval),
+         flat_ok (flat_effective sm dm) fields = true ->
+         Src_get_flat_resolved_mapper h (flat_cls sm dm fields fobj) =
+         Ok (enc_amap (flat_model (flat_effective sm dm) fields)).
+Proof. exact src_get_flat_resolved_mapper. Qed.
+
+Print Assumptions C07_src_camelcase.
+Print Assumptions C07_src_apply_mapper.
+Print Assumptions C07_src_apply_mapper_self.
+Print Assumptions C07_src_add_mapper_to_aggregation.
+Print Assumptions C07_src_set_base_mapper_no_op.
+Print Assumptions C07_src_aggregate_serialization.
+Print Assumptions C07_src_aggregate_deserialization.
+Print Assumptions C07_src_aggregate_class_list.
+Print Assumptions C07_src_flat_resolved_mapper.
